@@ -34,13 +34,23 @@ def main(argv):
         import io, contextlib
         buf = io.StringIO()
         with contextlib.redirect_stdout(buf):
-            st = mod.selftest()
-        if st != 0:
-            print(buf.getvalue())
-            raise core.MachineryError("binding self-test failed")
+            try:
+                st = mod.selftest()
+            except core.MachineryError:
+                raise
+            except Exception as ex:          # noqa: BLE001  (real code runs inside the self-test)
+                print("self-test raised", repr(ex)[:200])
+                st = 2
         v = core.Verdict(pid, tier, seed)
-        v.notes["binding_selftest"] = "passed: " + buf.getvalue().strip().splitlines()[-1][:160]
-        return mod.run(v)
+        last = (buf.getvalue().strip().splitlines() or ["(no output)"])[-1][:160]
+        v.notes["binding_selftest"] = ("passed: " if st == 0 else "FAILED: ") + last
+        rc = mod.run(v)
+        if st != 0 and rc == 0:
+            # the self-test executes real code too: if the tree under test breaks its known-good example the run above
+            # reports that as a violation; a failed self-test with a clean run means the harness itself is broken
+            print(buf.getvalue())
+            raise core.MachineryError("binding self-test failed although the check found no violation")
+        return rc
     except core.MachineryError as e:
         print(f"MACHINERY-FAILURE: {e}")
         return 2
